@@ -583,6 +583,20 @@ func c03Scenario(name string) func() explore.SchedOutcome {
 			h.Req(ref.TMakeFileAlias, ref.FS(ref.FFileName, "dir"), ref.F(ref.FFileNewPath, ref.PathBytes("dir"))) // dir/dir -> dir
 			world.Settle(5 * time.Second)
 			base = ""
+		case "SC10": // a forged invitation: the chat it names does not exist; the invited client accepts, then declines
+			h, _ := wd.Connect("10.0.0.66:6666", "", "", "hh")
+			hostiles = append(hostiles, h.Conn)
+			base = ""
+			for _, cid := range []uint32{0xdeadbeef, 0} {
+				h.Req(ref.TInviteToChat, ref.F16(ref.FUserID, 1), ref.F32(ref.FChatID, cid))
+				world.Settle(2 * time.Second)
+				sentinel.Req(ref.TJoinChat, ref.F32(ref.FChatID, cid))
+				world.Settle(2 * time.Second)
+				sentinel.Req(ref.TRejectChatInvite, ref.F32(ref.FChatID, cid))
+				world.Settle(2 * time.Second)
+				sentinel.Req(ref.TSetChatSubject, ref.F32(ref.FChatID, cid), ref.FS(ref.FChatSubject, "s"))
+				world.Settle(2 * time.Second)
+			}
 		case "SC9": // a client deletes a file while the sentinel asks for the list of that folder
 			h, _ := wd.Connect("10.0.0.66:6666", "admin", "secret", "hh")
 			hostiles = append(hostiles, h.Conn)
@@ -656,7 +670,7 @@ func c03Scenario(name string) func() explore.SchedOutcome {
 	}
 }
 
-var c03Scenarios = []string{"SC1", "SC2", "SC3", "SC4", "SC5", "SC6", "SC6s", "SC6r", "SC7", "SC8", "SC9"}
+var c03Scenarios = []string{"SC1", "SC2", "SC3", "SC4", "SC5", "SC6", "SC6s", "SC6r", "SC7", "SC8", "SC9", "SC10"}
 
 // c03Flood is the number of requests the deaf client of SC6 sends (each leaves one reply pending for it).
 var c03Flood = 300
@@ -712,7 +726,7 @@ func runC03(w *explore.Worker) {
 		c03Current = "" // the watchdog guards single mutation cases; schedule exploration is bounded by the step horizon
 		b := bound
 		switch sc {
-		case "SC7", "SC8":
+		case "SC7", "SC8", "SC10":
 			b = 0 // a sequence, not a race
 		case "SC6", "SC6r":
 			b = 0 // 300 pending replies: thousands of steps per execution, default schedule and hold-backs only
